@@ -15,7 +15,7 @@ Strategies == { [strat |-> "fixed", arities |-> <<>>], [strat |-> "fixed", ariti
                 [strat |-> "const", arities |-> <<4, 5>>], [strat |-> "const", arities |-> <<3, 4>>],
                 [strat |-> "const", arities |-> <<2, 2>>], [strat |-> "const", arities |-> <<1, 0>>],
                 [strat |-> "minsize", arities |-> <<0>>], [strat |-> "minsize", arities |-> <<3>>] }
-Grind == { [q |-> 28, pow |-> 16], [q |-> 12, pow |-> 16], [q |-> 10, pow |-> 20], [q |-> 3, pow |-> 1] }
+Grind == { [q |-> 28, pow |-> 16], [q |-> 12, pow |-> 16], [q |-> 14, pow |-> 10], [q |-> 3, pow |-> 1] }
 
 Cfgs == { [zk |-> z, strat |-> s.strat, arities |-> s.arities, rate |-> r, cap |-> c, nch |-> n,
            width |-> w, q |-> g.q, pow |-> g.pow, keccak |-> k] :
